@@ -59,7 +59,8 @@ SENT = core.Constant('C14_DEFAULT')
 MISS = '<DEFAULT>'
 BIG = 'BIG-' + 'x' * 16 + '\n' + 'y' * 8
 BIG2 = 'BIG2' + 'z' * 16 + '\n' + 'w' * 8
-CFGS = {'default': {}, 'statistics': {'statistics': 1}, 'lru': {'eviction_policy': 'least-recently-used'}}
+CFGS = {'default': {}, 'statistics': {'statistics': 1}, 'lru': {'eviction_policy': 'least-recently-used'},
+        'lfu': {'eviction_policy': 'least-frequently-used'}, 'statistics+tag_index': {'statistics': 1, 'tag_index': 1}}
 EXPECTED_SIGS = ('fanout_bulk_removal_spins', 'cull_ignores_retry')
 CASE_RECORDS = []       # one per case: {'case', 'result', 'begin_attempts', 'events', 'lock_taken_at', 'lock_released_at'}
 SPIN_BUDGET = 300
@@ -377,7 +378,7 @@ def always_retries(o):
     return o['cat'] in ('wop', 'rwop') or (o['fam'] in ('fanout', 'django') and o['cat'] == 'bulk')
 
 
-def cases_for(o, cfgs):
+def cases_for(o, cfgs, thorough=False):
     out = []
     for vk in ('inline', 'file'):
         for cfg in cfgs:
@@ -396,6 +397,8 @@ def cases_for(o, cfgs):
                 else:
                     out.append(dict(base, lock='release_1'))
                     out.append(dict(base, lock='release_3'))
+                    if thorough:
+                        out.append(dict(base, lock='release_10'))
                     if o['fam'] in ('fanout', 'django') and o['cat'] == 'bulk' and not retry:
                         out.append(dict(base, lock='held_budget'))
     return out
@@ -433,7 +436,7 @@ def run_case(ctx, case, twins, stats):
             c.close()
         before = exact_state(fam, d)
         locker = Locker(fam, d)
-        k_release = {'release_1': 1, 'release_3': 3, 'held_budget': SPIN_BUDGET}.get(lock)
+        k_release = {'release_1': 1, 'release_3': 3, 'release_10': 10, 'held_budget': SPIN_BUDGET}.get(lock)
 
         def hook(ev):
             info['events'].append(ev.short())
@@ -451,7 +454,7 @@ def run_case(ctx, case, twins, stats):
                 if locker.held and info['begins'] > SPIN_BUDGET + 50:
                     locker.release()
                     info['gave_up'] = True
-        if lock in ('held', 'release_1', 'release_3', 'held_budget'):
+        if lock in ('held', 'release_1', 'release_3', 'release_10', 'held_budget'):
             locker.lock()
         tracer = sched.Tracer(before=hook, clock=clock)
         try:
@@ -538,7 +541,7 @@ def run_case(ctx, case, twins, stats):
     else:
         tw = run_twin(ctx, case, o, twins)
         stats['waited_and_completed'] += 1
-        k = {'release_1': 1, 'release_3': 3, 'held_budget': SPIN_BUDGET}[lock]
+        k = {'release_1': 1, 'release_3': 3, 'release_10': 10, 'held_budget': SPIN_BUDGET}[lock]
         if lock == 'held_budget':
             # FanoutCache._remove retries forever on Timeout although retry=False
             if info['released_at'] is not None:
@@ -578,7 +581,9 @@ def cfgs_for(o, thorough):
         # inherited composites of a non-retrying get and retrying writes: with statistics/LRU their get part times out
         # cleanly (returns the default) and the composite then behaves as for a missing key; checked on default settings
         return ['default']
-    if thorough or o['fam'] == 'cache' or o['cat'] in ('rw', 'rwop', 'r'):
+    if thorough:
+        return ['default', 'statistics', 'lru', 'lfu', 'statistics+tag_index']
+    if o['fam'] == 'cache' or o['cat'] in ('rw', 'rwop', 'r'):
         return ['default', 'statistics', 'lru']
     return ['default', 'statistics']
 
@@ -616,7 +621,7 @@ def run(ctx, big=False):
                 order.append(fams[f].pop(0))
     for o in order:
         nops += 1
-        for case in cases_for(o, cfgs_for(o, thorough)):
+        for case in cases_for(o, cfgs_for(o, thorough), thorough):
             if _time.time() > deadline:
                 cut += 1
                 continue
